@@ -88,11 +88,13 @@ type c09Occ struct {
 }
 
 type c09Answer struct {
-	status  int // 0: body
-	trans   bool
-	pieces  [][]byte
-	end     string // eof | err | stall
-	stalled *atomic.Bool
+	status   int // 0: body
+	trans    bool
+	pieces   [][]byte
+	end      string // eof | err | stall
+	stalled  *atomic.Bool
+	redirect int  // 301/302/303/307/308 with Location: net/http follows, the request comes back
+	locHdr   bool // a Location header on an answer net/http does not follow
 }
 
 type c09Pend struct {
@@ -145,6 +147,12 @@ type c09Reg struct {
 	entryOf  func(d blob.Digest, k int) int // index of the k-th entry with digest d
 	plans    map[int]*c09Plan               // by entry index
 	unknown  []string
+
+	wantHops  map[string]int
+	logical   map[string]int
+	hops      func() int
+	hopStatus func() int
+	oddLoc    bool
 }
 
 func c09Resp(req *http.Request, status int, body io.ReadCloser, hdr map[string]string) *http.Response {
@@ -160,6 +168,29 @@ func c09Str(s string) io.ReadCloser { return io.NopCloser(strings.NewReader(s)) 
 
 func c09ErrBody(status int) string {
 	return fmt.Sprintf(`{"errors":[{"code":"VERIF_%d","message":"scripted"}]}`, status)
+}
+
+// c09HopURL is the same URL with the hop counter increased: the target of a scripted redirect.
+func c09HopURL(req *http.Request) string {
+	u := *req.URL
+	q := u.Query()
+	n, _ := strconv.Atoi(q.Get("hop"))
+	q.Set("hop", strconv.Itoa(n+1))
+	u.RawQuery = q.Encode()
+	return u.String()
+}
+
+// answers that are neither 2xx nor 4xx/5xx and that net/http hands to the caller as they are:
+// 1xx, 300/304/305/399 (with or without Location), 301/302/303/307/308 WITHOUT Location
+var c09OddStatuses = []int{100, 101, 199, 300, 304, 305, 399, 301, 302, 303, 307, 308}
+var c09FollowedStatuses = []int{301, 302, 303, 307, 308}
+
+func c09OddHasLocation(st int, rng *zzverif.Rng) bool {
+	switch st {
+	case 301, 302, 303, 307, 308:
+		return false
+	}
+	return rng.Bool()
 }
 
 func c09ParseRange(h string) (int64, int64, bool) {
@@ -185,13 +216,35 @@ func (r *c09Reg) RoundTrip(req *http.Request) (*http.Response, error) {
 		r.mu.Unlock()
 		return c09Resp(req, 400, c09Str(c09ErrBody(400)), nil), nil
 	}
+	if parts[3] == "manifests" || parts[3] == "chunksums" {
+		// scripted redirect hops before the logical answer (GET without body: always followed)
+		h, _ := strconv.Atoi(req.URL.Query().Get("hop"))
+		r.mu.Lock()
+		lk := parts[3] + "/" + parts[4]
+		key := lk + "/" + strconv.Itoa(r.logical[lk])
+		if h == 0 {
+			r.wantHops[key] = r.hops()
+		}
+		want := r.wantHops[key]
+		if h >= want {
+			r.logical[lk]++
+		}
+		r.mu.Unlock()
+		if h < want {
+			return c09Resp(req, r.hopStatus(), c09Str(""), map[string]string{"Location": c09HopURL(req)}), nil
+		}
+	}
 	switch parts[3] {
 	case "manifests":
 		st, body, err := r.manifest()
 		if err != nil {
 			return nil, err
 		}
-		return c09Resp(req, st, c09Str(body), nil), nil
+		hdr := map[string]string{}
+		if r.oddLoc {
+			hdr["Location"] = c09HopURL(req)
+		}
+		return c09Resp(req, st, c09Str(body), hdr), nil
 	case "chunksums":
 		d, _ := blob.ParseDigest(parts[4])
 		r.mu.Lock()
@@ -219,6 +272,10 @@ func (r *c09Reg) RoundTrip(req *http.Request) (*http.Response, error) {
 			return c09Resp(req, 404, c09Str(c09ErrBody(404)), nil), nil
 		case "status204":
 			return c09Resp(req, 204, c09Str(""), nil), nil
+		}
+		if strings.HasPrefix(p.fail, "odd:") {
+			st, _ := strconv.Atoi(strings.TrimPrefix(p.fail, "odd:"))
+			return c09Resp(req, st, c09Str(""), nil), nil
 		}
 		var sb strings.Builder
 		for _, cs := range p.entries {
@@ -275,8 +332,14 @@ func (r *c09Reg) RoundTrip(req *http.Request) (*http.Response, error) {
 			switch {
 			case a.trans:
 				return nil, errC09Transport
+			case a.redirect != 0:
+				return c09Resp(req, a.redirect, c09Str(""), map[string]string{"Location": c09HopURL(req)}), nil
 			case a.status != 0:
-				return c09Resp(req, a.status, c09Str(c09ErrBody(a.status)), nil), nil
+				hdr := map[string]string{}
+				if a.locHdr {
+					hdr["Location"] = c09HopURL(req)
+				}
+				return c09Resp(req, a.status, c09Str(c09ErrBody(a.status)), hdr), nil
 			}
 			return c09Resp(req, 200, &c09Body{pieces: a.pieces, end: a.end, ctx: req.Context(), stalled: a.stalled}, nil), nil
 		case <-req.Context().Done():
@@ -301,6 +364,12 @@ func (r *c09Reg) waiting() []*c09Pend {
 	sort.SliceStable(live, func(i, j int) bool { return live[i].occ.seq < live[j].occ.seq })
 	r.pending = live
 	return live
+}
+
+func (r *c09Reg) requeue(p *c09Pend) {
+	r.mu.Lock()
+	defer r.mu.Unlock()
+	r.queues[p.id] = append([]c09Occ{p.occ}, r.queues[p.id]...)
 }
 
 func (r *c09Reg) remove(p *c09Pend) {
@@ -358,6 +427,7 @@ type c09Gen struct {
 	mlist     []*c09Manifest
 	out       *zzverif.Out
 	force     string // "", "beyond" (plan with a range past / across the layer end), "honest"
+	hopsOf    map[int]int
 }
 
 // beyondPlan is the honest partition plus a range that ends past the end of the layer: either an
@@ -541,7 +611,11 @@ func (g *c09Gen) genPlan(c []byte, size int64) *c09Plan {
 	}
 	switch r.Intn(20) {
 	case 0:
-		p.fail = zzverif.Pick(r, []string{"status500", "status404", "status204", "transport"})
+		p.fail = zzverif.Pick(r, []string{"status500", "status404", "status204", "transport", "odd"})
+		if p.fail == "odd" {
+			p.fail = fmt.Sprintf("odd:%d", zzverif.Pick(r, c09OddStatuses))
+			g.out.Count("plan_fail_odd_status")
+		}
 		g.out.Count("plan_fail")
 		return p
 	}
@@ -630,14 +704,25 @@ func (g *c09Gen) genAnswer(p *c09Pend, faulty bool) (c09Answer, string) {
 	data := append([]byte{}, p.occ.pre...)
 	a := c09Answer{end: "eof"}
 	kind := "good"
+	if !faulty && g.force == "" && r.Chance(1, 25) {
+		kind = "redirect"
+	}
 	if faulty {
-		kind = zzverif.Pick(r, []string{"status500", "status404", "transport", "short", "readerr", "corrupt", "extra", "status500", "corrupt", "stall"})
+		kind = zzverif.Pick(r, []string{"status500", "status404", "transport", "short", "readerr", "corrupt", "extra", "status500", "corrupt", "stall", "odd", "redirect"})
 	}
 	switch kind {
 	case "status500":
 		a.status = 500
 	case "status404":
 		a.status = 404
+	case "odd":
+		a.status = zzverif.Pick(r, c09OddStatuses)
+		a.locHdr = c09OddHasLocation(a.status, r)
+	case "redirect":
+		if g.hopsOf[p.occ.seq] < 3 {
+			a.redirect = zzverif.Pick(r, c09FollowedStatuses)
+			g.hopsOf[p.occ.seq]++
+		}
 	case "transport":
 		a.trans = true
 	case "short":
@@ -662,6 +747,9 @@ func (g *c09Gen) genAnswer(p *c09Pend, faulty bool) (c09Answer, string) {
 	case "extra":
 		data = append(data, r.Bytes(r.Range(1, 2))...)
 	}
+	if a.redirect != 0 {
+		data = nil
+	}
 	a.pieces = c09Split(r, data)
 	g.out.Count("chunk_answer_" + kind)
 	return a, kind
@@ -669,6 +757,8 @@ func (g *c09Gen) genAnswer(p *c09Pend, faulty bool) (c09Answer, string) {
 
 func c09ShowAnswer(a c09Answer) string {
 	switch {
+	case a.redirect != 0:
+		return "redirect"
 	case a.trans:
 		return "fail transport"
 	case a.status >= 500:
@@ -706,7 +796,7 @@ func c09FileHex(c *blob.DiskCache, d blob.Digest) string {
 }
 
 func c09PullCase(t *testing.T, out *zzverif.Out, rng *zzverif.Rng, dir string, tag string, linkShortcut, verify, staged bool) {
-	g := &c09Gen{rng: rng, out: out, cuts: map[string][]int64{}, manifests: map[string]*c09Manifest{}}
+	g := &c09Gen{rng: rng, out: out, cuts: map[string][]int64{}, manifests: map[string]*c09Manifest{}, hopsOf: map[int]int{}}
 	g.thr = int64(zzverif.Pick(rng, []int{2, 3, 4, 6, 6, 9}))
 	g.streams = zzverif.Pick(rng, []int{1, 1, 2, 2, 3, -1, -1})
 	npool := rng.Range(2, 4)
@@ -821,7 +911,7 @@ func c09PullCase(t *testing.T, out *zzverif.Out, rng *zzverif.Rng, dir string, t
 		m := current[model]
 		manKind := "ok"
 		if rng.Chance(1, 12) && !calm && !(lieAfterLink && at == 1) {
-			manKind = zzverif.Pick(rng, []string{"status500", "status404", "unknown", "transport", "badjson"})
+			manKind = zzverif.Pick(rng, []string{"status500", "status404", "unknown", "transport", "badjson", "odd", "empty2xx", "odd"})
 		}
 		out.Count("manifest_" + manKind)
 		all := m.all()
@@ -852,8 +942,24 @@ func c09PullCase(t *testing.T, out *zzverif.Out, rng *zzverif.Rng, dir string, t
 		}
 		reg := &c09Reg{queues: map[c09Ident][]c09Occ{}, seen: map[blob.Digest]int{}, bigSeen: map[blob.Digest]int{},
 			plans: map[int]*c09Plan{}}
+		oddStatus := zzverif.Pick(rng, c09OddStatuses)
+		reg.oddLoc = manKind == "odd" && c09OddHasLocation(oddStatus, rng)
+		empty2xx := zzverif.Pick(rng, []int{201, 204, 206})
+		reg.wantHops, reg.logical = map[string]int{}, map[string]int{}
+		reg.hops = func() int {
+			if calm || !rng.Chance(1, 10) {
+				return 0
+			}
+			out.Count("redirected_manifest_or_chunksums_request")
+			return rng.Range(1, 3)
+		}
+		reg.hopStatus = func() int { return zzverif.Pick(rng, c09FollowedStatuses) }
 		reg.manifest = func() (int, string, error) {
 			switch manKind {
+			case "odd":
+				return oddStatus, "", nil
+			case "empty2xx":
+				return empty2xx, "", nil
 			case "status500":
 				return 500, c09ErrBody(500), nil
 			case "status404":
@@ -986,6 +1092,9 @@ func c09PullCase(t *testing.T, out *zzverif.Out, rng *zzverif.Rng, dir string, t
 				a, _ := g.genAnswer(w[k], rng.Intn(10) < faultRate)
 				steps = append(steps, fmt.Sprintf("rel %d %s", k, c09ShowAnswer(a)))
 				reg.remove(w[k])
+				if a.redirect != 0 {
+					reg.requeue(w[k]) // the followed request will come back as the same occurrence
+				}
 				w[k].ch <- a
 				if a.stalled != nil {
 					synctest.Wait()
@@ -1032,7 +1141,7 @@ func c09PullCase(t *testing.T, out *zzverif.Out, rng *zzverif.Rng, dir string, t
 			}
 		} else {
 			cls := map[string]string{"status500": "status5xx", "status404": "status4xx", "unknown": "notFound",
-				"transport": "transport", "badjson": "invalidManifest"}[manKind]
+				"transport": "transport", "badjson": "invalidManifest", "odd": "status4xx", "empty2xx": "invalidManifest"}[manKind]
 			fmt.Fprintf(&sb, "manerr %s", cls)
 		}
 		fmt.Fprintf(&sb, " %d", len(all))
